@@ -182,6 +182,7 @@ func tryPartial(env Env, nodes []ast.IsNode,
 ) (ast.IsNode, error) {
 	var values []types.Value
 	ok := true
+	orig := slices.Clone(nodes)
 	// A record or set that still holds a variable can be navigated (attribute access, has)
 	// or embedded in a literal; any other operation would use the placeholder instead of the
 	// value it stands for, and a residual must not carry the placeholder either (a later
@@ -220,7 +221,9 @@ func tryPartial(env Env, nodes []ast.IsNode,
 			return nil, err
 		}
 		if IsVariable(v) {
-			return mkNode(nodes), errVariable
+			// the operands evaluated so far may hold the placeholder: hand back the
+			// expression as it was written
+			return mkNode(orig), errVariable
 		} else if IsIgnore(v) {
 			return nil, errIgnore
 		}
